@@ -128,6 +128,8 @@ def apply_esubst(p, x, plug):
         if not s_fresh(plug, p[1]):
             raise Rej('captureS')
         return ('mu', p[1], apply_esubst(p[2], x, plug))
+    if k == 'mv' and x in p[2]:
+        return p
     if is_meta(p):
         return ('esub', p, x, plug)
     return p
@@ -149,6 +151,8 @@ def apply_ssubst(p, X, plug):
         if not s_fresh(plug, p[1]):
             raise Rej('captureS')
         return ('mu', p[1], apply_ssubst(p[2], X, plug))
+    if k == 'mv' and X in p[3]:
+        return p
     if is_meta(p):
         return ('ssub', p, X, plug)
     return p
@@ -344,3 +348,51 @@ class Mach:
                     raise Rej('claimMismatch')
         else:
             raise Rej('badOpcode')
+
+
+def subst_wf(p):
+    """every ESubst/SSubst node is one the machine can hold: meta head, not redundant (lib.rs well_formed)"""
+    k = p[0]
+    if k in ('evar', 'svar', 'sym', 'mv'):
+        return True
+    if k in ('imp', 'app'):
+        return subst_wf(p[1]) and subst_wf(p[2])
+    if k in ('ex', 'mu'):
+        return subst_wf(p[2])
+    if k == 'esub':
+        return is_meta(p[1]) and p[3] != ('evar', p[2]) and not e_fresh(p[1], p[2]) and subst_wf(p[1]) and subst_wf(p[3])
+    if k == 'ssub':
+        return is_meta(p[1]) and p[3] != ('svar', p[2]) and not s_fresh(p[1], p[2]) and subst_wf(p[1]) and subst_wf(p[3])
+    raise ValueError(p)
+
+
+def decode(bs):
+    """bytes -> list of instruction tuples, or None (mirror of lean/Pi2/Codec.lean decode; steering/filters only)"""
+    names = {v: k for k, v in OPC.items()}
+    out, i = [], 0
+    n = len(bs)
+    while i < n:
+        nm = names.get(bs[i])
+        if nm is None:
+            return None
+        if nm in ('evar', 'svar', 'sym', 'mu', 'ex', 'esubst', 'ssubst', 'gen', 'subst', 'load', 'cleanmv'):
+            if i + 1 >= n:
+                return None
+            out.append((nm, bs[i + 1])); i += 2
+        elif nm == 'metavar':
+            if i + 1 >= n:
+                return None
+            mid = bs[i + 1]; i += 2
+            lists = []
+            for _ in range(5):
+                if i >= n or i + 1 + bs[i] > n:
+                    return None
+                lists.append(tuple(bs[i + 1:i + 1 + bs[i]])); i += 1 + bs[i]
+            out.append(('metavar', mid) + tuple(lists))
+        elif nm == 'instantiate':
+            if i + 1 >= n or i + 2 + bs[i + 1] > n:
+                return None
+            out.append(('instantiate', tuple(bs[i + 2:i + 2 + bs[i + 1]]))); i += 2 + bs[i + 1]
+        else:
+            out.append((nm,)); i += 1
+    return out
